@@ -15,11 +15,13 @@ import (
 	"sync"
 
 	"github.com/q191201771/lal/pkg/base"
+	"github.com/q191201771/lal/pkg/hls"
 	"github.com/q191201771/lal/pkg/httpflv"
 	"github.com/q191201771/lal/pkg/httpts"
 	"github.com/q191201771/lal/pkg/logic"
 	"github.com/q191201771/lal/pkg/rtmp"
 
+	"verif/lib/fsim"
 	"verif/lib/netsim"
 	"verif/lib/ref"
 )
@@ -110,9 +112,48 @@ type W struct {
 	Net    *netsim.World
 	SM     *logic.ServerManager
 	Notify *Notify
+	FS     *fsim.FS // instrumented HLS file system (when hls.enable)
+	ID     int
 	tick   uint32
 	nconn  int
+	Hooks  []*Hook // stream hook contexts created so far (when WithHook)
 }
+
+// Hook records what the customize hook session sees.
+type Hook struct {
+	mu      sync.Mutex
+	Key     string
+	Stream  string
+	Msgs    int
+	Stops   int
+	LastTyp uint8
+}
+
+func (h *Hook) OnMsg(msg base.RtmpMsg) {
+	h.mu.Lock()
+	h.Msgs++
+	h.LastTyp = msg.Header.MsgTypeId
+	h.mu.Unlock()
+}
+func (h *Hook) OnStop() {
+	h.mu.Lock()
+	h.Stops++
+	h.mu.Unlock()
+}
+func (h *Hook) Counts() (msgs, stops int) {
+	h.mu.Lock()
+	defer h.mu.Unlock()
+	return h.Msgs, h.Stops
+}
+
+var (
+	fsRouter   = fsim.NewRouter()
+	routerOnce sync.Once
+	worldSeq   int
+)
+
+// FsRouter is the process-wide file-system layer installed into pkg/hls.
+func FsRouter() *fsim.Router { return fsRouter }
 
 var buildMu sync.Mutex
 
@@ -121,12 +162,34 @@ var buildMu sync.Mutex
 func New(c Conf) *W {
 	buildMu.Lock()
 	defer buildMu.Unlock()
-	w := &W{Net: netsim.NewWorld(), Notify: &Notify{}}
+	worldSeq++
+	w := &W{Net: netsim.NewWorld(), Notify: &Notify{}, ID: worldSeq}
+	withHook := false
+	if v, ok := c["_hook"]; ok {
+		withHook, _ = v.(bool)
+		delete(c, "_hook")
+	}
+	if on, _ := c["hls.enable"].(bool); on {
+		routerOnce.Do(func() { hls.VerifSetFsl(fsRouter) })
+		root := fmt.Sprintf("/vfs/w%d/hls/", w.ID)
+		if _, ok := c["hls.out_path"]; !ok {
+			c["hls.out_path"] = root
+		}
+		w.FS = fsim.New(c["hls.out_path"].(string))
+		fsRouter.Register(w.FS)
+	}
 	raw := buildConf(c)
 	w.SM = logic.NewServerManager(func(o *logic.Option) {
 		o.ConfRawContent = raw
 		o.NotifyHandler = w.Notify
 	})
+	if withHook {
+		w.SM.WithOnHookSession(func(uniqueKey string, streamName string) logic.ICustomizeHookSessionContext {
+			h := &Hook{Key: uniqueKey, Stream: streamName}
+			w.Hooks = append(w.Hooks, h)
+			return h
+		})
+	}
 	return w
 }
 
@@ -157,6 +220,9 @@ func (w *W) Close() {
 	w.Net.Shutdown()
 	w.Net.Quiesce()
 	logic.VerifShutdown(w.SM)
+	if w.FS != nil {
+		fsRouter.Unregister(w.FS)
+	}
 }
 
 func (w *W) Dump() string { return logic.VerifDump(w.SM) }
@@ -374,4 +440,18 @@ func Scratch() string {
 		d = os.TempDir()
 	}
 	return d
+}
+
+// NewRawRtmpConn opens a connection served by the real rtmp.Server without sending anything.
+func (w *W) NewRawRtmpConn() *netsim.Conn {
+	w.nconn++
+	c := w.Net.NewConn(fmt.Sprintf("rawrtmp%d", w.nconn))
+	srv := logic.VerifRtmpServer(w.SM)
+	w.Net.Go(c, func() { rtmp.VerifHandleConn(srv, c) })
+	return c
+}
+
+// BaseRtmpMsg converts a reference message to lal's type.
+func BaseRtmpMsg(m ref.Msg) base.RtmpMsg {
+	return base.RtmpMsg{Header: base.RtmpHeader{Csid: m.Csid, MsgLen: uint32(len(m.Payload)), MsgTypeId: m.Type, MsgStreamId: int(m.Msid), TimestampAbs: m.Ts}, Payload: m.Payload}
 }
